@@ -316,7 +316,7 @@ def fault_rows(behs, seed=1, noauto=False):
     return list(rows.values())
 
 
-FAULT_EVENTS = ("data-acklost", "lose-kept", "lose-lost", "cut-kept", "cut-lost")
+FAULT_EVENTS = ("data-acklost", "lose-kept", "lose-lost", "cut-kept", "cut-lost", "other-response", "publish-error")
 
 
 def stream_situations(row):
@@ -325,7 +325,7 @@ def stream_situations(row):
     ev = row["events"]
     for i, e in enumerate(ev):
         if e in FAULT_EVENTS:
-            prev = "start" if i == 0 else ("fault" if ev[i - 1] in FAULT_EVENTS else ev[i - 1])
+            prev = "start" if i == 0 else (ev[i - 1] if ev[i - 1] in ("data", "keepalive", "other-response") else "fault")
             out.add(prev + ">" + e)
     return out
 
@@ -416,7 +416,8 @@ def run_faults(run, vf, prop):
                                     label="SubSeq contract: exactly-once delivery and acknowledgement across reconnects"))
         for cfg, what in (("SubSeq_dev_keepalive.cfg", "keep-alive advances nextSeq -> notification skipped by Republish"),
                           ("SubSeq_dev_transfer.cfg", "transferred subscription with empty queue not resumed"),
-                          ("SubSeq_dev_noack.cfg", "republished notifications never acknowledged")):
+                          ("SubSeq_dev_noack.cfg", "republished notifications never acknowledged"),
+                          ("SubSeq_dev_unknownsub.cfg", "response for a forgotten subscription leaves the acknowledgements pending")):
             jobs.append(lambda cfg=cfg, what=what: run.tlc("ClientConn", "SubSeq", cfg, expect="violation", count=False, timeout=1500, workers=1,
                                                            label="deviation demo: " + what))
     res = run.parallel(*jobs)
